@@ -84,6 +84,9 @@ where
         };
         if rng.chance(1, 4) {
             knobs.max_len = 12 + rng.below(40);
+        } else if rng.chance(1, 3) {
+            // a batch of equal-length values: reserve_items can go through the fixed-size array impls
+            knobs.fixed_len = 1 + rng.below(4);
         }
         for _ in 0..np {
             ops.push(AOp::Prior(T::Val::gen(&mut Gen::new(rng, &mut knobs))));
